@@ -82,6 +82,18 @@ SUMMARY = {
             "the old worker needing more than 1 s (slow unlink/fdatasync) for the RemoveChunks queued behind the acknowledged flush; needs a simulated clock and slow-disk delays to be seen deterministically"),
  "R2-C15": ("C15", "PayloadCache::try_evict loops at most 16 times per insert.",
             "more than 16 entries becoming evictable between two appends (a closed chunk with > 16 cached entries synced while the limits are tiny)"),
+ "R3-C01": ("C01", "RaftLogState::purge: 'last follows purged' now compares indexes (log_index(upto) >= next_log_index(last)) instead of log ids.",
+            "purge((t', i)) while last == (t, i): same index, higher term (a snapshot landing exactly on a stale tail entry); last keeps the stale id until the next append"),
+ "R3-C06": ("C06", "RaftLog::truncate computes prev = index.saturating_sub(1) and matches purged by index == prev: truncate(0) with purged at index 0 is accepted as TruncateAfter(purged) instead of rejected.",
+            "purged index exactly 0 and the rejected call exactly truncate(0) (with at least one entry at index >= 1 to see the damage)"),
+ "R3-C09": ("C09", "Chunk::read_record (cache-miss read path) decodes the record body without verifying its checksum; the open path is unchanged.",
+            "store already open, an Append in a closed chunk evicted from the cache, its bytes altered on disk after open, then read()"),
+ "R3-C10": ("C10", "reopen_last_closed re-opens a truncated newest chunk when only its head record is left: the next write lands at the stale file position, leaving a hole of zeros.",
+            "torn/zero tail starting right after the head State record of the newest chunk, truncation enabled, then a write by the SAME instance that did the recovery and a second restart"),
+ "R3-C13": ("C13", "FileLock::new removes the LOCK file when the lock is refused and the file did not exist before the call.",
+            "a brand-new directory, contender B's exists() before A creates LOCK and A's flock before B's, and a third attempt while A is alive (two owners on different inodes)"),
+ "R3-C16": ("C16", "debug_assert_ne!(chunk_id, open chunk id) added to RaftLogWAL::load_log_payload: read() panics for an entry of the open chunk that was evicted (the original returns Err).",
+            "tiny cache, rotation + completed flush, truncate and same-term re-append of a log id not above the closed chunk's last, then read before the next rotation"),
 }
 
 
